@@ -111,6 +111,9 @@ def r08c(ctx, repo, cg):
     ctx.rule("R08c", "no function reachable from run_model writes module-level state, declares `global`, or calls a clock/RNG/uuid outside the listed metadata sites")
     seen = cg.reachable([repo.func("model", "run_model")])
     ctx.require(len(seen) >= 80, "R08c: only %d functions reachable from run_model (confirmed: > 100); call-graph resolution degraded" % len(seen))
+    # copying and pickling a model run unlink / relink on every object: the same rule applies to them (a copy must not read state other models left behind)
+    copy_roots = [f for f in repo.module("model").all_functions() if f.qualname.split(".")[-1] in ("unlink", "relink", "__getstate__", "__setstate__", "__deepcopy__")]
+    seen = set(seen) | set(cg.reachable(copy_roots))
     ctx.extra["reachable_from_run_model"] = len(seen)
     n = 0
     for fq in sorted(seen):
